@@ -190,7 +190,8 @@ def pool_value(env, e, tag, name, arity=1, fn=None, concrete=False, lim=None):
             vals = vals[1:3] + vals[-1:]       # fewer partners beside an odd value at arity 3-4: 1, -1 / 2020
         return vals[e.choose(len(vals))]
     if tag == 'int' and fn in SMALL_INT_FUNCS:
-        return e.fresh_int(name, -40, 40)
+        # (the second argument - ROMAN's form - stays smaller still: every pair of values is a path of its own)
+        return e.fresh_int(name, -40, 40) if arity <= 1 else e.fresh_int(name, -12, 12) if name == 'x0' else e.fresh_int(name, -6, 6)
     if tag == 'float' and fn in SMALL_INT_FUNCS:
         from ..values import SymFloat
         return SymFloat(iz=e.fresh_int(name, -40, 40).z) if e.choose(2) else 2.5
